@@ -1,7 +1,28 @@
 import CogentModel.Json
 import CogentModel.Model.GeneticCode
 import CogentModel.Spec.GeneticCode
-open CogentModel CogentModel.GC CogentModel.C12Tables
+import CogentModel.Gen.C12Code
+open CogentModel CogentModel.GC CogentModel.C12Tables CogentModel.GCP CogentModel.Gen.C12Code
+
+def pyErrStr : PyErr → String
+  | .valueError => "ValueError"
+  | .alphabetError => "AlphabetError"
+  | .invalidCodon => "InvalidCodonError"
+  | .typeError => "TypeError"
+  | .other => "Exception"
+
+def exP {α} (f : α → J) : Except PyErr α → J
+  | .ok a => f a
+  | .error e => J.obj [("err", J.str (pyErrStr e))]
+
+def itemJ : Item → J
+  | .str s => J.str (String.ofList s)
+  | .strs l => J.arr (l.map fun w => J.str (String.ofList w))
+
+def findFull (codes : List (Nat × List Char × List Char)) (id : Nat) : Except String (List Char × List Char) :=
+  match codes.find? (·.1 = id) with
+  | some c => pure c.2
+  | none => throw s!"no code {id}"
 
 def errStr : Err → String
   | .valueError => "ValueError"
@@ -160,6 +181,44 @@ def handle (cmd : String) (j : J) : Except String J :=
     | "trim_stop_codons" => pure (exJ rowsJ (collTrimStopCodons getItem rows (← (← j.get "strict").toBool)))
     | "aln_trim_stop_codons" => pure (exJ rowsJ (alnTrimStopCodons getItem rows (← (← j.get "strict").toBool)))
     | w => throw s!"bad op {w}"
+  | "gen" => do
+    -- the TRANSLATED functions (Gen/C12Code.lean, regenerated from the source each run), executed
+    let id ← (← j.get "code").toNat
+    let s ← getS j "s"
+    let (oseq, ost) ← findFull oldCodes id
+    let (nseq, _) ← findFull newCodes id
+    let og := mkOldGC oseq ost
+    let ng := mkNewGCO newDna nseq
+    let dictJ := fun (d : List (List Char × List Char)) => J.arr (d.map fun kv => J.arr [sJ kv.1, sJ kv.2])
+    let dictLJ := fun (d : List (List Char × List (List Char))) => J.arr (d.map fun kv => J.arr [sJ kv.1, J.arr (kv.2.map sJ)])
+    match ← (← j.get "fn").toStr with
+    | "objects" => pure (J.obj [("old_codons", dictJ og.codons), ("old_synonyms", dictLJ og.synonyms),
+        ("old_start_codons", dictJ og.start_codons), ("new_codon_to_aa", dictJ ng.codon_to_aa),
+        ("new_aa_to_codon", dictLJ ng.aa_to_codon)])
+    | "old_getitem" => pure (exP itemJ (old_getitem og s))
+    | "new_getitem" => pure (exP itemJ (new_getitem ng s))
+    | "old_is_stop" => pure (exP J.bool (old_is_stop og s))
+    | "new_is_stop" => pure (exP J.bool (new_is_stop ng s))
+    | "old_is_start" => pure (exP J.bool (old_is_start og s))
+    | "old_simple_rc" => pure (exP sJ (old_simple_rc s))
+    | "new_get_start_codon_indices" => pure (exP (fun l => J.arr (l.map fun i => J.num i)) (new_get_start_codon_indices s))
+    | "old_translate" => pure (exP sJ (old_translate og s (← (← j.get "start").toInt)))
+    | "new_translate" => pure (exP sJ (new_translate ng (Dna.ofStr s) (← (← j.get "start").toInt) (← (← j.get "rc").toBool)))
+    | "old_sixframes" => pure (exP (fun fs => J.arr (fs.map sJ)) (old_sixframes og s))
+    | "new_sixframes" => pure (exP (fun fs => J.arr (fs.map fun x => J.arr [sJ x.1, J.num x.2.1, sJ x.2.2])) (new_sixframes ng (Dna.ofStr s)))
+    | fn => do
+      let mt ← getMT (← (← j.get "mt").toStr)
+      let q := newSeqOf mt s
+      let strict := (← (← j.get "strict").toBool)
+      match fn with
+      | "new_seq_has_terminal_stop" => pure (exP J.bool (new_seq_has_terminal_stop q ng strict))
+      | "old_seq_has_terminal_stop" => pure (exP J.bool (old_seq_has_terminal_stop q og strict))
+      | "new_seq_trim_stop_codon" => pure (exP (fun r => sJ r.chars) (new_seq_trim_stop_codon q ng strict))
+      | "old_seq_trim_stop_codon" => pure (exP (fun r => sJ r.chars) (old_seq_trim_stop_codon q og strict))
+      | "new_seq_get_translation" =>
+        pure (exP sJ (new_seq_get_translation q ng (← (← j.get "incomplete_ok").toBool) (← (← j.get "include_stop").toBool)
+          (← (← j.get "trim_stop").toBool)))
+      | w => throw s!"bad fn {w}"
   | _ => throw s!"unknown command {cmd}"
 
 def main : IO Unit := driverLoop handle
